@@ -262,6 +262,115 @@ func VerifC03ReplaceCrash() {
 	verifrt.Reach("end")
 }
 
+// ---------------------------------------------------------------------------------------------
+// The real MmsTables.ReplaceFiles, stopped at an arbitrary file operation.
+
+//verif:stub github.com/openGemini/openGemini/engine/immutable.GenLogFileName = verifC03GenLogName
+
+func verifC03GenLogName(seq *uint64) string { return "log1" }
+
+type verifC03Crash struct{}
+
+// verifC03CrashIn counts the file operations of data files that still complete; the one after it does not
+// happen and neither does anything after it (the process is gone).
+var verifC03CrashIn int
+
+func verifC03Op() {
+	if verifC03CrashIn == 0 {
+		panic(verifC03Crash{})
+	}
+	verifC03CrashIn--
+}
+
+// verifC03Tssp is a data file as ReplaceFiles sees it: a path, a level and sequence, rename and remove.
+type verifC03Tssp struct {
+	TSSPFile
+	path string
+	seq  uint64
+	ext  uint16
+}
+
+func (f *verifC03Tssp) Path() string                       { return f.path }
+func (f *verifC03Tssp) Inuse() bool                        { return false }
+func (f *verifC03Tssp) FreeFileHandle() error              { return nil }
+func (f *verifC03Tssp) LevelAndSequence() (uint16, uint64) { return 0, f.seq }
+func (f *verifC03Tssp) FileNameExtend() uint16             { return f.ext }
+func (f *verifC03Tssp) Rename(newName string) error {
+	verifC03Op()
+	err := fileops.RenameFile(f.path, newName, fileops.FileLockOption(""))
+	if err == nil {
+		f.path = newName
+	}
+	return err
+}
+func (f *verifC03Tssp) Remove() error {
+	verifC03Op()
+	return fileops.Remove(f.path, fileops.FileLockOption(""))
+}
+
+// VerifC03ReplaceFilesCrash: MmsTables.ReplaceFiles itself (log, renames, deletions, log removal in the
+// order the code performs them) is cut off at an arbitrary rename or deletion of a data file, or runs to
+// the end; start-up recovery then leaves exactly the old or exactly the new set of data files visible,
+// and after an uninterrupted replace the new set is visible, also in memory, and no log is left behind.
+func VerifC03ReplaceFilesCrash() {
+	defer func() {
+		for _, d := range verifC03Tmp {
+			os.RemoveAll(d)
+		}
+		verifC03Tmp = nil
+	}()
+	root := verifC03Root()
+	shardDir := filepath.Join(root, "shard")
+	mmDir := filepath.Join(shardDir, TsspDirName, "m_0000")
+	logDir := filepath.Join(shardDir, compactLogDir)
+	nOld := 1 + verifrt.Choose("nOld", 2+verifrt.Tier())
+	nNew := 1 + verifrt.Choose("nNew", 2)
+	oldNames := []string{"00000001-0000-00000000.tssp", "00000002-0000-00000000.tssp", "00000003-0000-00000000.tssp", "00000004-0000-00000000.tssp"}[:nOld]
+	newNames := []string{"00000001-0001-00000000.tssp", "00000001-0001-00000001.tssp"}[:nNew]
+	var oldFiles, newFiles []TSSPFile
+	for i, o := range oldNames {
+		verifC03Put(filepath.Join(mmDir, o), []byte("old"))
+		oldFiles = append(oldFiles, &verifC03Tssp{path: filepath.Join(mmDir, o), seq: uint64(i + 1)})
+	}
+	for i, n := range newNames {
+		verifC03Put(filepath.Join(mmDir, n+tmpFileSuffix), []byte("new"))
+		newFiles = append(newFiles, &verifC03Tssp{path: filepath.Join(mmDir, n+tmpFileSuffix), seq: 1, ext: uint16(i)})
+	}
+	_ = fileops.MkdirAll(logDir, 0750, fileops.FileLockOption(""))
+	lockPath := ""
+	m := NewTableStore(filepath.Join(shardDir, TsspDirName), &lockPath, nil, false, GetTsStoreConfig())
+	m.SetImmTableType(config.TSSTORE)
+	fs := NewTSSPFiles()
+	fs.files = append(fs.files, oldFiles...)
+	m.Order["m_0000"] = fs
+
+	ops := nNew + nOld
+	verifC03CrashIn = verifrt.Choose("crashAt", ops+1) // == ops: no crash
+	crashed := verifC03CrashIn < ops
+	err := m.ReplaceFiles("m_0000", oldFiles, newFiles, true)
+	verifC03CrashIn = 1 << 30
+	if crashed {
+		verifrt.Assert(err != nil, "setup: the injected stop did not stop the replace")
+		verifrt.Reach("crashed")
+	} else {
+		verifrt.Assert(err == nil, "an uninterrupted replace failed")
+		verifrt.Assert(verifC03Same(verifC03Visible(mmDir), newNames), "after a completed replace the visible data files are not exactly the new set")
+		logs, e := fileops.ReadDir(logDir)
+		verifrt.Assert(e == nil && len(logs) == 0, "a completed replace left its log behind")
+		verifrt.Assert(len(fs.files) == nNew, "after a completed replace the in-memory file list is not the new set")
+		for i := range fs.files {
+			verifrt.Assert(fs.files[i].Path() == filepath.Join(mmDir, newNames[i]), "after a completed replace the in-memory file list is not the new set")
+		}
+		verifrt.Reach("completed")
+	}
+	err = procCompactLog(shardDir, logDir, &lockPath, config.TSSTORE)
+	verifrt.Assert(err == nil, "recovery failed on a state ReplaceFiles produces")
+	vis := verifC03Visible(mmDir)
+	isOld, isNew := verifC03Same(vis, oldNames), verifC03Same(vis, newNames)
+	verifrt.Assert(isOld || isNew, "after a replace stopped part-way and recovery, the visible data files are neither exactly the old set nor exactly the new set")
+	verifrt.Reach("end")
+}
+
 // VerifC03LogCodec: the compaction log record round-trips, and no strict prefix of a record (a torn write)
 // parses into a record.
 func VerifC03LogCodec() {
